@@ -738,3 +738,225 @@ def _():
     u, v = TrialFunction(V), TestFunction(V)
     f = ufl.Coefficient(space(m))
     return f * inner(grad(u), grad(v)) * dx + inner(u, v) * ds
+
+
+@reg("cplx_nonlinear_inner_triangle", "c09 q", scalar="complex128")
+def _():
+    m = mesh("triangle")
+    V = space(m)
+    f = ufl.Coefficient(V)
+    k = ufl.Constant(m)
+    v = TestFunction(V)
+    return inner(sqrt(f) + exp(k * f) + f**2, v) * dx(degree=1)
+
+
+@reg("cplx_facet_inner_triangle", "c09 q", scalar="complex128", itypes=("exterior_facet", "interior_facet"))
+def _():
+    m = mesh("triangle")
+    V = space(m, "DG", 1)
+    u, v = TrialFunction(V), TestFunction(V)
+    f = ufl.Coefficient(V)
+    n = FacetNormal(m)
+    return f * inner(u, v) * ds + inner(jump(u), jump(v)) * dS + inner(dot(grad(u), n), v) * ds
+
+
+# ---- geometric quantities x restriction x integral type -------------------------
+
+_GEOM = {
+    "cellvolume": lambda m: ufl.CellVolume(m),
+    "circumradius": lambda m: ufl.Circumradius(m),
+    "celldiameter": lambda m: ufl.CellDiameter(m),
+    "facetarea": lambda m: ufl.FacetArea(m),
+    "mincelledge": lambda m: ufl.MinCellEdgeLength(m),
+    "maxcelledge": lambda m: ufl.MaxCellEdgeLength(m),
+    "minfacetedge": lambda m: ufl.MinFacetEdgeLength(m),
+    "maxfacetedge": lambda m: ufl.MaxFacetEdgeLength(m),
+    "x": lambda m: ufl.SpatialCoordinate(m)[0] + 2 * ufl.SpatialCoordinate(m)[GD[m.ufl_cell().cellname] - 1],
+    "normal": lambda m: FacetNormal(m)[0] + 3 * FacetNormal(m)[GD[m.ufl_cell().cellname] - 1],
+}
+
+for _cell in ["triangle", "tetrahedron", "quadrilateral"]:
+    for _g in _GEOM:
+        if _g in ("minfacetedge", "maxfacetedge") and _cell != "tetrahedron":
+            continue
+        if _cell == "quadrilateral" and _g not in ("x", "normal", "facetarea"):
+            continue
+
+        def _mk_dS(cell=_cell, g=_g):
+            m = mesh(cell)
+            V = space(m, "DG", 1) if cell != "quadrilateral" else space(m, "DQ", 1)
+            v = TestFunction(V)
+            q = _GEOM[g](m)
+            return q("+") * v("-") * dS + 2 * q("-") * v("+") * dS
+
+        def _mk_ds(cell=_cell, g=_g):
+            m = mesh(cell)
+            V = space(m)
+            v = TestFunction(V)
+            return _GEOM[g](m) * v * ds
+
+        _q = " q" if (_cell == "triangle" and _g in ("celldiameter", "circumradius", "x", "normal", "facetarea")) else ""
+        reg(f"geom_dS_{_g}_{_cell}", "c02 c08 geom" + _q, itypes=("interior_facet",))(_mk_dS)
+        reg(f"geom_ds_{_g}_{_cell}", "c02 c08 geom" + (" q" if _cell == "triangle" and _g in ("celldiameter", "facetarea") else ""), itypes=("exterior_facet",))(_mk_ds)
+        if _g not in ("facetarea", "minfacetedge", "maxfacetedge", "normal"):
+            def _mk_dx(cell=_cell, g=_g):
+                m = mesh(cell)
+                V = space(m)
+                v = TestFunction(V)
+                return _GEOM[g](m) * v * dx
+
+            reg(f"geom_dx_{_g}_{_cell}", "c01 c08 geom" + (" q" if _cell == "triangle" and _g == "celldiameter" else ""))(_mk_dx)
+
+
+@reg("dS_penalty_triangle", "c02 c03 c08 q", itypes=("interior_facet",))
+def _():
+    m = mesh("triangle")
+    V = space(m, "DG", 1)
+    u, v = TrialFunction(V), TestFunction(V)
+    h = ufl.CellDiameter(m)
+    return (1.0 / avg(h)) * jump(u) * jump(v) * dS
+
+
+# ---- element variants ------------------------------------------------------------
+
+
+def tp_space_variant(m, deg, variant):
+    cell = m.ufl_cell().cellname
+    e = basix.create_tp_element(basix.ElementFamily.P, basix.CellType[cell], deg, getattr(basix.LagrangeVariant, variant))
+    return ufl.FunctionSpace(m, basix.ufl.wrap_element(e))
+
+
+@reg("sf_variants_Q3_quadrilateral", "c10 c10sf c08sf")
+def _():
+    m = tp_mesh("quadrilateral")
+    V = tp_space_variant(m, 3, "gll_warped")
+    W = tp_space_variant(m, 3, "equispaced")
+    f = ufl.Coefficient(W)
+    v = TestFunction(V)
+    return f * v * dx
+
+
+@reg("sf_variants_Q2_quadrilateral", "c10 c10sf c08sf q")
+def _():
+    m = tp_mesh("quadrilateral")
+    V = tp_space_variant(m, 2, "gll_warped")
+    W = tp_space_variant(m, 3, "equispaced")
+    f = ufl.Coefficient(W)
+    g = ufl.Coefficient(tp_space_variant(m, 3, "gll_warped"))
+    v = TestFunction(V)
+    return f * g * v * dx(degree=4)
+
+
+@reg("variants_P3_triangle", "c01 c08")
+def _():
+    m = mesh("triangle")
+    V = ufl.FunctionSpace(m, basix.ufl.element("Lagrange", "triangle", 3, lagrange_variant=basix.LagrangeVariant.gll_warped))
+    W = ufl.FunctionSpace(m, basix.ufl.element("Lagrange", "triangle", 3, lagrange_variant=basix.LagrangeVariant.equispaced))
+    f = ufl.Coefficient(W)
+    v = TestFunction(V)
+    return f * v * dx
+
+
+# ---- large kernels: structural monitors only (too large for polynomial execution) ----
+
+
+@reg("big_stiffness_Q3_hexahedron", "c07 c08 c19 big q")
+def _():
+    m = mesh("hexahedron")
+    V = space(m, "Q", 3)
+    u, v = TrialFunction(V), TestFunction(V)
+    return inner(grad(u), grad(v)) * dx
+
+
+@reg("big_mass_P4_tetrahedron", "c07 c08 c19 big")
+def _():
+    m = mesh("tetrahedron")
+    V = space(m, deg=4)
+    u, v = TrialFunction(V), TestFunction(V)
+    f = ufl.Coefficient(V)
+    return f * u * v * dx
+
+
+@reg("big_dS_P3_tetrahedron", "c07 c08 c19 big")
+def _():
+    m = mesh("tetrahedron")
+    V = space(m, "DG", 3)
+    u, v = TrialFunction(V), TestFunction(V)
+    return jump(u) * jump(v) * dS
+
+
+# ---- explicit quadrature degree / scheme in metadata (deliberately below the estimate) ----
+
+for _cell in ["interval", "triangle", "quadrilateral", "tetrahedron"]:
+    for _q in range(0, 7):
+        def _mk(cell=_cell, q=_q):
+            m = mesh(cell)
+            V = space(m, deg=2) if cell != "quadrilateral" else space(m, "Q", 2)
+            f = ufl.Coefficient(V)
+            v = TestFunction(space(m) if cell != "quadrilateral" else space(m, "Q", 1))
+            return f * f * v * dx(metadata={"quadrature_degree": q})
+
+        if _cell == "tetrahedron" and _q > 3:
+            continue
+        reg(f"deg{_q}_{_cell}", "c11 c11md" + (" q" if (_cell == "triangle" and _q <= 3) or (_cell in ("interval", "quadrilateral") and _q in (0, 1)) else ""))(_mk)
+
+
+@reg("deg0_facets_triangle", "c11 c11md c02 q", itypes=("exterior_facet", "interior_facet"))
+def _():
+    m = mesh("triangle")
+    V = space(m, "DG", 2)
+    f = ufl.Coefficient(V)
+    v = TestFunction(space(m, "DG", 1))
+    return f * f * v * ds(metadata={"quadrature_degree": 0}) + f("+") * f("-") * v("+") * dS(metadata={"quadrature_degree": 1})
+
+
+@reg("scheme_vertex_triangle", "c11 c11md q")
+def _():
+    m = mesh("triangle")
+    V = space(m)
+    u, v = TrialFunction(V), TestFunction(V)
+    f = ufl.Coefficient(V)
+    return f * u * v * dx(metadata={"quadrature_rule": "vertex", "quadrature_degree": 1})
+
+
+@reg("scheme_vertex_facet_tetrahedron", "c11 c11md", itypes=("exterior_facet",))
+def _():
+    m = mesh("tetrahedron")
+    V = space(m)
+    u, v = TrialFunction(V), TestFunction(V)
+    return u * v * ds(metadata={"quadrature_rule": "vertex", "quadrature_degree": 1})
+
+
+@reg("scheme_gll_quadrilateral", "c11 c11md q")
+def _():
+    m = mesh("quadrilateral")
+    V = space(m, "Q", 1)
+    u, v = TrialFunction(V), TestFunction(V)
+    return u * v * dx(metadata={"quadrature_rule": "GLL", "quadrature_degree": 2})
+
+
+@reg("same_coef_two_rules_triangle", "c11 c11md c01 q")
+def _():
+    m = mesh("triangle")
+    V = space(m)
+    f = ufl.Coefficient(V)
+    u, v = TrialFunction(V), TestFunction(V)
+    return f * u * v * dx(degree=1) + f * f * u * v * dx(degree=4)
+
+
+@reg("same_coef_three_rules_curved", "c11 c11md c01")
+def _():
+    m = mesh("triangle", gdeg=2)
+    V = space(m)
+    f = ufl.Coefficient(V)
+    v = TestFunction(V)
+    return f * v * dx(degree=0) + f * f * v * dx(degree=2) + inner(grad(f), grad(v)) * dx(degree=1)
+
+
+@reg("same_coef_two_rules_ds", "c11 c11md c02 q", itypes=("exterior_facet",))
+def _():
+    m = mesh("triangle")
+    V = space(m)
+    f = ufl.Coefficient(V)
+    v = TestFunction(V)
+    return f * v * ds(degree=0) + f * f * v * ds(degree=3)
